@@ -191,6 +191,8 @@ def one_case(acc, plan, case, rowname, wordrepr):
         # UNPREDICTABLE / unmodelled: only totality and the C10 range invariant are required
         if res.exc is not None and not target.escape_ok(res.exc):
             acc.violation('%s:%s:host-error:%s' % (plan.prop, row, type(res.exc).__name__), case, {'exception': repr(res.exc)})
+        elif res.range_bad:
+            acc.violation('%s:%s:out-of-range' % (plan.prop, row), case, {'keys': res.range_bad, 'reference': res.status})
         elif res.status == 'skip' and 'instruction fetch aborts' in str(res.detail) and res.exc is None and res.post is not None and res.step == 0:
             # armulator reports an aborting instruction fetch through its Data Abort path (a Prefetch Abort is not implemented, so there is no exact
             # oracle) - but whatever entry it takes, the SPSR of the mode it entered must hold the interrupted CPSR
